@@ -294,7 +294,7 @@ func tagKey(tags []string) string {
 	var hard []string
 	for _, t := range tags {
 		switch t {
-		case "DupFull", "Depth-max", "Version3", "TrailingJunk", "Depth-over":
+		case "DupFull", "Depth-under", "Depth-max", "Version3", "TrailingJunk", "Depth-over", "Thin":
 		default:
 			hard = append(hard, t)
 		}
@@ -435,6 +435,12 @@ func evalRow(row *pgRow, line []byte, f objFormat) (out c09RowResult) {
 					ek := why
 					if i, ok := rd.entryOf[string(y.content)]; ok && len(row.Es[i-1].Ed) > 0 {
 						ek = strings.Join(row.Es[i-1].Ed, "+")
+					}
+					if strings.Trim(y.id, "0") == "" {
+						// an object served under the all-zero id: which corruption makes an entry fail before
+						// its first byte is a matter of byte luck (e.g. the trailer read as an entry), the
+						// scenario is "incomplete object committed under the null id"
+						ek = "zero-id"
 					}
 					diverge(l.op+"|"+cls+"|"+ek,
 						fmt.Sprintf("%s yields object %s (%s, %d bytes) whose content hashes to %s (%v)", l.name, y.id, y.typ, len(y.content), re, row.Tags),
